@@ -63,13 +63,15 @@ func (impl Implementation) Dorgbr(vect lapack.GenOrtho, m, n, k int, a []float64
 		if m >= k {
 			impl.Dorgqr(m, n, k, a, lda, tau, work, -1)
 		} else if m > 1 {
-			impl.Dorgqr(m-1, m-1, m-1, a[lda+1:], lda, tau, work, -1)
+			// The query does not look at a, which may be a
+			// placeholder that cannot be sliced.
+			impl.Dorgqr(m-1, m-1, m-1, nil, lda, tau, work, -1)
 		}
 	} else {
 		if k < n {
 			impl.Dorglq(m, n, k, a, lda, tau, work, -1)
 		} else if n > 1 {
-			impl.Dorglq(n-1, n-1, n-1, a[lda+1:], lda, tau, work, -1)
+			impl.Dorglq(n-1, n-1, n-1, nil, lda, tau, work, -1)
 		}
 	}
 	lworkopt := int(work[0])
